@@ -202,6 +202,8 @@ def decorate(rng, case):
         c["legacy"] = rng.choice(["names", "modules", "transport", "asyncgen"])
     if e == "runner" and rng.random() < 0.3:
         c["legacy"] = "names"
+    if rng.random() < 0.6:
+        c["cmdstyle"] = rng.randrange(0, 13)          # hostile text in the configured command path itself
     # the host process: logging at DEBUG with a handler that formats; a stdout that is not UTF-8, or closed
     if rng.random() < 0.45:
         c["logging"] = "debug"
@@ -536,6 +538,9 @@ class Entry(Suite):
                 if e in ("cliTest", "cliMain"):
                     c["verbose"] = lg_ == "debug"
                 out.append(c)
+        for st in range(13):                              # every hostile command path through every entry point
+            out.append({"entry": ENTRIES[st % 4], "file": "ok", "doc": d1, "names": ["a", "b"] if ENTRIES[st % 4] == "runner" else ["b"],
+                        "expect": "valid", "cmdstyle": st})
         for lg in ("names", "modules", "transport", "asyncgen"):
             out.append({"entry": "loader", "file": "ok", "doc": d1, "names": ["b"], "expect": "valid", "legacy": lg})
         out.append({"entry": "runner", "file": "ok", "doc": d3, "names": ["p", "q"], "expect": "valid", "legacy": "names"})
@@ -564,7 +569,7 @@ class Entry(Suite):
                 out += [decorate(rng, c) for c in malformed_cases(rng, doc)]
         cov = {}
         for c in out:
-            for k in ("style", "cfgname", "main_mode", "cmdfunc", "verbose", "repeat", "legacy", "logging", "stdout"):
+            for k in ("style", "cfgname", "main_mode", "cmdfunc", "verbose", "repeat", "legacy", "logging", "stdout", "cmdstyle"):
                 if k in c:
                     cov[f"{k}={c[k]}"] = cov.get(f"{k}={c[k]}", 0) + 1
             if "witness_mode" in c:
@@ -731,7 +736,7 @@ class Entry(Suite):
         return case["expect"] == "valid"
 
     def shrink_candidates(self, case):
-        for k in ("logging", "stdout", "legacy", "host_env", "repeat", "witness_mode", "verbose", "user_specified", "cmdfunc", "style", "cfgname", "cfgdir"):
+        for k in ("cmdstyle", "logging", "stdout", "legacy", "host_env", "repeat", "witness_mode", "verbose", "user_specified", "cmdfunc", "style", "cfgname", "cfgdir"):
             if k in case and not (k == "cfgname" and case.get("main_mode") == "discover"):
                 yield {a: b for a, b in case.items() if a != k}
         if case.get("main_mode") not in (None, "explicit"):
